@@ -20,7 +20,7 @@ def parseOpts (s : String) : Opts :=
   if s == "" then [] else
   (s.splitOn ",").map fun item =>
     match item.splitOn ":" with
-    | [name, l] => (name, if l == "-" then none else some (plusList l))
+    | [name, l] => (if name == "~" then "" else name, if l == "-" then none else some (plusList l))   -- "~" = the empty name
     | _ => (item, none)
 
 def meStr (name : String) (me : ME.St) : String :=
@@ -206,7 +206,7 @@ def handle (sess : Sess) (rep : Report) (ln : Nat) (toks : List String) (obs : S
       !((parseMes implDigest).all fun (_, _, eps) => eps.all fun (_, st) => st != "A")
     then fail rep ln "C15" "reflects_pool_connectivity" else rep
   let rep := if op == "rpc" && sess.lastImpl != "" && obs.startsWith "pool=" then
-      let name := if arg a "name" == "-" then none else some (arg a "name")
+      let name := if arg a "name" == "-" then none else if arg a "name" == "~" then some "" else some (arg a "name")
       match expectedPool sess.lastImpl (sess.histOpts.map (·.1)) sess.histDefault name with
       | some e => if obs == s!"pool={e}" then rep else fail rep ln "C15" "rpc_routes_current"
       | none => rep
@@ -306,7 +306,7 @@ def handle (sess : Sess) (rep : Report) (ln : Nat) (toks : List String) (obs : S
     match sess.model with
     | none => (sess, rep.bump "gme.skipped_after_divergence")
     | some s =>
-      let name := if arg a "name" == "-" then none else some (arg a "name")
+      let name := if arg a "name" == "-" then none else if arg a "name" == "~" then some "" else some (arg a "name")
       let rep := match name with
         | none => rep.bump "gme.rpc_no_name"
         | some n => if (findME s n).isSome then rep.bump "gme.rpc_known_name" else rep.bump "gme.rpc_unknown_name"
